@@ -583,3 +583,18 @@ def c18(tier, seed):
                                                 'timestamps from embedded metadata are not modelled (None)']
     ck.rule = 'a state = one embedded file set with symbolic bytes; transitions = execution paths over all observers and mutators on all universe paths'
     return ck.finish(prog)
+
+
+@prop('C15')
+def c15(tier, seed):
+    from . import asynck
+    ck = Check('C15', tier, seed)
+    prog = load_program(('async-vfs',))
+    k = 3 if tier == 'quick' else 4
+    cases = [{'clen': c, 'k': k} for c in range(0, 4 if tier == 'quick' else 5)]
+    ck.add(run_cases(prog, asynck.run_async_reader_case, cases), 'AsyncReadableFile::poll_read/poll_seek vs the sync reader contract on symbolic scripts')
+    ck.bounds = {'claimed_part': 'the hand-written async reader kernels only', 'content': '0..%d symbolic bytes' % (3 if tier == 'quick' else 4), 'script_steps': k,
+                 'offsets': 'any 64-bit value', 'outside': 'the async filesystems, AsyncVfsPath composites, streams and poll schedules (lowered coroutines are not interpreted yet)'}
+    ck.assumptions = COMMON_ASSUMPTIONS[:2] + ['async-vfs MIR is dumped with the stable toolchain (RUSTC_BOOTSTRAP=1); the nightly cannot build rustix 0.37']
+    ck.rule = 'a state = content length class with symbolic bytes; transitions = all reader scripts of the bounded length'
+    return ck.finish(prog)
